@@ -3,6 +3,7 @@ CONSTANTS
   Alphabet = {45, 97}
   N = 12
   Kind = "line"
+  Prefixes <- PrefixesNone
   TRIM_CONTROL = FALSE
 INVARIANTS NonBlankKept CaseOnlyInName Fixpoint NoTrailingBlanks Emit
 CHECK_DEADLOCK FALSE
